@@ -28,7 +28,7 @@ func init() {
 			return 900
 		},
 		Batch: func(t string) int { return 30 },
-		Floors: []string{"sink_faults", "sink_exhaustive_files", "sink_mode_error", "sink_mode_short", "sink_mode_transient", "truncations", "truncation_exhaustive_files", "readat_faults", "readat_mode_error", "readat_mode_short_error", "readat_mode_early_eof",
+		Floors: []string{"sink_faults", "sink_exhaustive_files", "sink_mode_error", "sink_mode_short", "sink_mode_transient", "truncations", "truncation_exhaustive_files", "readat_faults", "readat_mode_error", "readat_mode_short_error", "readat_mode_early_eof", "readat_mode_persistent_short_eof",
 			"scenario_plain", "scenario_nobuf", "scenario_file_pages", "scenario_deferred_bloom", "scenario_sorting_writer", "scenario_concurrent_rowgroups", "scenario_copy_rowgroup", "scenario_chunk_pages"},
 		Rule: "three fault families over 8 writer scenarios (default, WriteBufferSize 0/1, file- and chunk-backed page buffers, deferred bloom filters, SortingWriter, concurrent row groups, WriteRowGroup copy path): " +
 			"(a) the sink fails at byte offset k (error / short write with error / one transient failure): EVERY offset for files <= 4 KiB, else every write-call boundary +-1 plus PRNG offsets; oracle: some Write/Flush/Close returns an error, no panic, and a nil Close means the sink holds exactly the clean bytes; " +
@@ -92,6 +92,9 @@ func c14Produce(scenario string, te *typeEntry, rows reflect.Value, src *parquet
 	n := rows.Len()
 	base := []parquet.WriterOption{parquet.PageBufferSize(256)}
 	rr := gen.New(seed)
+	if scenario != "deferred_bloom" && rr.Bool() {
+		base = append(base, parquet.BloomFilters(parquet.SplitBlockFilter(10, "id")))
+	}
 	var cleanup func()
 	defer func() {
 		if cleanup != nil {
@@ -184,7 +187,7 @@ type faultReaderAt struct {
 	data   []byte
 	calls  int
 	failAt int
-	mode   int // 0 error, 1 short read + error, 2 early EOF (short, io.EOF), 3 (0, io.EOF)
+	mode   int // 0 error, 1 short read + error, 2 early EOF (short, io.EOF), 3 (0, io.EOF), 4 every read from failAt on is (short, io.EOF)
 }
 
 func (f *faultReaderAt) ReadAt(p []byte, off int64) (int, error) {
@@ -193,25 +196,45 @@ func (f *faultReaderAt) ReadAt(p []byte, off int64) (int, error) {
 	if off >= int64(len(f.data)) {
 		return 0, io.EOF
 	}
-	n := copy(p, f.data[off:])
-	var err error
-	if n < len(p) {
-		err = io.EOF
+	// what the source holds for this range; a faulty call delivers only part of it and the bytes
+	// it did not deliver are NOT in p (they are overwritten, so that a caller ignoring n shows)
+	avail := len(f.data) - int(off)
+	if avail > len(p) {
+		avail = len(p)
+	}
+	deliver := func(k int) int {
+		copy(p[:k], f.data[off:])
+		for j := k; j < len(p); j++ {
+			p[j] = 0xDB
+		}
+		return k
+	}
+	if f.mode == 4 && f.failAt >= 0 && i >= f.failAt {
+		// the source lost its tail: from this call on only the first half of every range arrives
+		if avail > 1 {
+			return deliver(avail / 2), io.EOF
+		}
+		return deliver(0), io.EOF
 	}
 	if i == f.failAt {
 		switch f.mode {
 		case 0:
-			return 0, errInjected
+			return deliver(0), errInjected
 		case 1:
-			return n / 2, errInjected
+			return deliver(avail / 2), errInjected
 		case 2:
-			if n > 1 {
-				return n / 2, io.EOF
+			if avail > 1 {
+				return deliver(avail / 2), io.EOF
 			}
-			return 0, io.EOF
+			return deliver(0), io.EOF
 		default:
-			return 0, io.EOF
+			return deliver(0), io.EOF
 		}
+	}
+	n := copy(p, f.data[off:])
+	var err error
+	if n < len(p) {
+		err = io.EOF
 	}
 	return n, err
 }
@@ -295,7 +318,11 @@ func runC14(c *Ctx) {
 	rows := genRows(r, te, n, genOpts{NoHuge: true, SmallLists: true})
 	seed := r.U64()
 	c14FileOpts = nil
-	switch prof := (c.Case / 7) % 4; prof {
+	switch prof := (c.Case / 7) % 5; prof {
+	case 4:
+		c14FileOpts = []parquet.FileOption{parquet.ReadBufferSize(4096)} // OpenFile with defaults: filters are probed lazily through ReadAt
+		c.D("file_options", "open_defaults")
+		c.Obs("read_profile_open_defaults", 1)
 	case 1:
 		c14FileOpts = []parquet.FileOption{parquet.OptimisticRead(true)}
 		c.D("file_options", "optimistic")
@@ -469,11 +496,11 @@ func runC14(c *Ctx) {
 			}
 		}
 		for _, i := range idx {
-			for mode := 0; mode < 4; mode++ {
+			for mode := 0; mode < 5; mode++ {
 				src := &faultReaderAt{data: data, failAt: i, mode: mode}
 				var got reflect.Value
 				var err error
-				mname := []string{"error", "short_error", "early_eof", "early_eof"}[mode]
+				mname := []string{"error", "short_error", "early_eof", "early_eof", "persistent_short_eof"}[mode]
 				k2 := map[string]any{"scenario": scenario, "family": family, "mode": mname}
 				if c.guard("c14.panic", k2, func() { got, err = c14ReadAll(te, src, int64(N)) }) {
 					c.Extra("readat_call", i)
